@@ -1071,6 +1071,17 @@ private:
     # NB: this edit used to be listed as benign (it is algebraically the same); seed C20-2 showed it is not: p/100 is rounded first
     dict(property="C20", name="percentile-position-reordered", rule="R-C20-3", file="include/nano/core/stats.h", tu="src/core/histogram.cpp",
          old="const double position = percentage * static_cast<double>(size - 1) / 100.0;", new="const double position = static_cast<double>(size - 1) * (percentage / 100.0);"),
+    dict(property="C19", name="enum-lookup-prefix-only", rule="R-C19-7", file="include/nano/core/strutil.h", tu="src/parameter.cpp",
+         old="""        for (const auto& option : options)
+        {
+            if (option.second == str)
+            { // cppcheck-suppress useStlAlgorithm
+                return option.first;
+            }
+        }
+""", new=""),
+    dict(property="C19", name="enum-map-duplicate-name", rule="R-C19-7", file="include/nano/wlearner/criterion.h", tu="src/wlearner/stump.cpp",
+         old="""        { wlearner_criterion::bic,  "bic"}""", new="""        { wlearner_criterion::bic,  "aic"}"""),
     # ---- C09
     dict(property="C09", name="linear-accumulator-sum-drops-gW1", rule="R-C09-2", file="src/linear/accumulator.cpp",
          old="    m_gW1 += other.m_gW1;\n", new=""),
